@@ -1,3 +1,118 @@
-use crate::run::{Ctx, Ev};
+//! C20 - risk caps and configuration bounds hold under any update sequence.
+use serde_json::json;
+
+use super::engine_refs::*;
+use crate::run::{pq_bool, Ctx, Ev};
+use crate::types::*;
 use crate::world::World;
-pub fn step(_ctx: &Ctx, _w: &World, _ev: &mut Ev) {}
+
+pub fn step(ctx: &Ctx, w: &World, ev: &mut Ev) {
+    if w.cfg.kind != WorldKind::Standard {
+        return;
+    }
+    let d = w.d;
+    // configuration bounds: checked after every transaction that changed a configuration (whoever sent it)
+    if let (Some(a), Some(b)) = (&ctx.pre.eng, &ctx.post.eng) {
+        let changed = a != b;
+        if let Op::EngineConfig { initial, maintenance, partial, liq_fee, .. } = &ctx.step.op {
+            let fields = (initial.is_some(), maintenance.is_some(), partial.is_some(), liq_fee.is_some());
+            let boundary = [initial, maintenance, partial, liq_fee].iter().any(|x| matches!(x, Some(v) if *v == 0 || *v == 1 || *v == d || *v == d + 1 || *v + 1 == d));
+            ev.eval(boundary || (fields.0 && fields.1), &("engine_cfg", fields, ctx.out.ok, boundary), || json!({"update": serde_json::to_value(&ctx.step.op).unwrap_or_default(), "accepted": ctx.out.ok}));
+            if fields.0 && fields.1 {
+                ev.count("combined_margin_ratio_update");
+            }
+        }
+        if changed || matches!(ctx.step.op, Op::EngineConfig { .. }) {
+            for (name, val) in [("initial_margin_ratio", b.initial), ("maintenance_margin_ratio", b.maintenance), ("partial_liquidation_ratio", b.partial), ("liquidation_fee", b.liq_fee)] {
+                if val > d {
+                    ev.violation("ratio_range", &format!("engine,{}", name), json!({"field": name, "value": val.to_string(), "one": d.to_string()}));
+                }
+            }
+            if b.maintenance > b.initial {
+                let combined = matches!(&ctx.step.op, Op::EngineConfig { initial: Some(_), maintenance: Some(_), .. });
+                ev.violation("maint_le_init", if combined { "combined" } else { "single" }, json!({"initial": b.initial.to_string(), "maintenance": b.maintenance.to_string()}));
+            }
+        }
+    }
+    for i in 0..ctx.post.vamms.len() {
+        let (a, b) = (&ctx.pre.vamms[i], &ctx.post.vamms[i]);
+        if !b.ok {
+            continue;
+        }
+        let is_cfg = matches!(&ctx.step.op, Op::VammConfig { vamm, .. } if *vamm == i);
+        if is_cfg {
+            if let Op::VammConfig { toll, spread, fluct, twap_interval, holding_cap, oi_cap, .. } = &ctx.step.op {
+                let vd = b.decimals.max(1);
+                let boundary = [toll, spread, fluct].iter().any(|x| matches!(x, Some(v) if *v == 0 || *v == 1 || *v == vd || *v == vd + 1 || *v + 1 == vd)) || matches!(twap_interval, Some(t) if [59u64, 60, 61, 604800, 604801].contains(t));
+                ev.eval(boundary || holding_cap.is_some() || oi_cap.is_some(), &("vamm_cfg", toll.is_some(), spread.is_some(), fluct.is_some(), twap_interval.is_some(), ctx.out.ok, boundary), || json!({"update": serde_json::to_value(&ctx.step.op).unwrap_or_default(), "accepted": ctx.out.ok}));
+            }
+        }
+        if is_cfg || a.toll != b.toll || a.spread != b.spread || a.fluct != b.fluct || a.twap_interval != b.twap_interval {
+            let vd = b.decimals.max(1);
+            for (name, val) in [("toll_ratio", b.toll), ("spread_ratio", b.spread), ("fluctuation_limit_ratio", b.fluct)] {
+                if val > vd {
+                    ev.violation("ratio_range", &format!("vamm,{}", name), json!({"field": name, "value": val.to_string(), "one": vd.to_string()}));
+                }
+            }
+            if b.twap_interval < 60 || b.twap_interval > 604800 {
+                ev.violation("interval_range", if b.twap_interval < 60 { "below_minute" } else { "above_week" }, json!({"interval": b.twap_interval}));
+            }
+        }
+        // registry: a registered vAMM has the engine's decimals
+        if b.registered {
+            if let Some(e) = &ctx.post.eng {
+                if b.decimals != e.decimals {
+                    ev.violation("decimals_match", "registered", json!({"vamm": i, "vamm_decimals": b.decimals.to_string(), "engine_decimals": e.decimals.to_string()}));
+                }
+            }
+        }
+    }
+    if let Op::AddVamm { vamm } = &ctx.step.op {
+        let addr = w.resolve(vamm);
+        if let Some(i) = w.addrs.vamms.iter().position(|x| *x == addr) {
+            let mism = ctx.post.vamms[i].decimals != ctx.post.eng.as_ref().map(|e| e.decimals).unwrap_or(0);
+            ev.eval(mism, &("add_vamm", mism, ctx.out.ok), || json!({"add_vamm": i, "decimals_mismatch": mism, "accepted": ctx.out.ok}));
+            if mism {
+                ev.count("add_vamm_with_mismatched_decimals");
+            }
+        }
+    }
+    // caps: after a successful position-increasing trade by a non-whitelisted trader
+    if let Op::Open { vamm, .. } = &ctx.step.op {
+        if !ctx.out.ok {
+            return;
+        }
+        let v = *vamm;
+        let vo = &ctx.pre.vamms[v];
+        if vo.oi_cap == 0 && vo.holding_cap == 0 {
+            return;
+        }
+        let actor = w.resolve(&ctx.step.actor);
+        let wl = pq_bool(ctx.preq, "whitelisted").unwrap_or(false);
+        let class = match classify_open(ctx, w) {
+            Some(c) => c,
+            None => return,
+        };
+        let before = ctx.pre.position(v, &actor).map(|p| p.size).unwrap_or(0);
+        let after = ctx.post.position(v, &actor).map(|p| p.size).unwrap_or(0);
+        let increasing = after.unsigned_abs() > before.unsigned_abs() || (before != 0 && after != 0 && before.signum() != after.signum());
+        let oi = ctx.post.eng.as_ref().map(|e| e.oi).unwrap_or(0);
+        let near = (vo.oi_cap != 0 && oi * 10 >= vo.oi_cap * 9) || (vo.holding_cap != 0 && after.unsigned_abs() * 10 >= vo.holding_cap * 9);
+        ev.eval(true, &("cap_trade", class.kind, wl, near, vo.oi_cap != 0, vo.holding_cap != 0), || {
+            json!({"open": class.kind.s(), "whitelisted": wl, "open_interest": oi.to_string(), "oi_cap": vo.oi_cap.to_string(), "size_after": after.to_string(), "holding_cap": vo.holding_cap.to_string()})
+        });
+        if wl {
+            ev.count("cap_trade_by_whitelisted");
+            return;
+        }
+        if !increasing {
+            return;
+        }
+        if vo.oi_cap != 0 && oi > vo.oi_cap {
+            ev.violation("oi_cap", class.kind.s(), json!({"open_interest": oi.to_string(), "cap": vo.oi_cap.to_string()}));
+        }
+        if vo.holding_cap != 0 && after.unsigned_abs() > vo.holding_cap {
+            ev.violation("holding_cap", class.kind.s(), json!({"size": after.to_string(), "cap": vo.holding_cap.to_string()}));
+        }
+    }
+}
